@@ -337,6 +337,30 @@ func (o *oracle) apply(m meaning) {
 	}
 }
 
+// shadowed: every missing route belongs to an up peer whose address is that of a currently ignored
+// peer (IgnorePeerASNs) of another VRF
+func (o *oracle) shadowed(rd uint64, miss []string) bool {
+	for _, m := range miss {
+		src := strings.SplitN(m, "~", 2)[0]
+		found := false
+		for pi, p := range o.h.pool {
+			if p.RD != rd || !o.up[pi] || peerSrc(p) != src {
+				continue
+			}
+			for j := range o.ignored {
+				q := o.h.pool[j]
+				if q.RD != p.RD && q.Addr == p.Addr && q.V6 == p.V6 {
+					found = true
+				}
+			}
+		}
+		if !found {
+			return false
+		}
+	}
+	return len(miss) > 0
+}
+
 // expected table content of (rd, family)
 func (o *oracle) expect(rd uint64, v6 bool) string {
 	fam := "4|"
@@ -416,6 +440,9 @@ func runCase(h history) (obs string, sig, detail string, nt bool) {
 						sg = "route-not-announced-by-an-up-peer-in-table"
 					case len(miss) > 0:
 						sg = "announced-route-missing-from-table"
+						if orc.shadowed(rd, miss) {
+							sg = "route-missing:address-shared-with-ignored-peer-of-other-vrf"
+						}
 					}
 					viol(sg, fmt.Sprintf("after action %d (%s peer %d): VRF %x family v6=%v exists=%v: table [%s], announced and not withdrawn by up peers [%s]", ai, a.m.kind, a.m.peer, rd, v6, exists, got, want))
 				}
